@@ -448,24 +448,38 @@ def check_negation(prog, rep):
     n_ok = 0
     for f in sorted(fs, key=lambda g: g.id):
         pd = {p['d']: p for p in f.params}
-        ifs = [n for n in f.walk() if n['k'] == 'IfStmt' and (strip(child(n, 'cond')) or {}).get('d') in (f.params[2]['d'], f.params[3]['d'])
-               and any(x['k'] == 'UnaryOperator' and x.get('op') == '-' for x in f.walk(child(n, 'then')))]
-        if not ifs:
-            raise AnalysisBroken('R15.5: the "negative duration" block (if (<bool parameter>) { ... -magnitude ... }) was not found in %s' % f.loc())
-        negs = [x for x in f.walk(child(ifs[0], 'then')) if x['k'] == 'UnaryOperator' and x.get('op') == '-']
-        vals = [x for x in f.walk(negs[0]) if x['k'] == 'DeclRefExpr' and x.get('dk') in ('Var', None) and x.get('d') not in pd]
-        if not vals:
-            raise AnalysisBroken('R15.5: the negated magnitude is not a local variable in %s' % f.loc())
+        # the negation of the parsed magnitude: a unary minus whose operand is (a cast of) a local of an unsigned 64-bit type
+        negs = []
+        for x in f.walk():
+            if x['k'] == 'UnaryOperator' and x.get('op') == '-':
+                loc_ = [y for y in f.walk(x) if y['k'] == 'DeclRefExpr' and y.get('dk') in ('Var', None) and y.get('d') not in pd
+                        and 'unsigned long' in f.type(y)]
+                if loc_:
+                    negs.append((x, loc_[0]))
+        if not negs:
+            raise AnalysisBroken('R15.5: the negation of the parsed magnitude was not found in %s' % f.loc())
         rep.touch(f)
-        vd = vals[0]['d']
-        neg_p = pd[strip(child(ifs[0], 'cond'))['d']]
+        vd = negs[0][1]['d']
+        # region: everything that follows the parse of the number - the largest enclosing block that does not contain the from_chars call
+        region = None
+        p_ = f.parent(negs[0][0])
+        while p_ is not None:
+            if p_['k'] == 'CompoundStmt':
+                if any(y['k'] == 'CallExpr' and (f.callee(y) or {}).get('n') == 'from_chars' for y in f.walk(p_)):
+                    break
+                region = p_
+            p_ = f.parent(p_)
+        if region is None:
+            raise AnalysisBroken('R15.5: no block after the parse of the number encloses the negation in %s' % f.loc())
+        ifs = [region]
 
         def setup(it, fr, cell):
-            fr.env[vd] = cell
-            fr.env[neg_p['d']] = 1
             for p in f.params:
-                if p is not neg_p:
-                    fr.env[p['d']] = TOP
+                fr.env[p['d']] = TOP
+            for x in f.walk():
+                for dcl in x.get('decls', []) or []:
+                    fr.env.setdefault(dcl['d'], TOP)
+            fr.env[vd] = cell
         cells = nowrap.explore(prog, f, 0, (1 << 64) - 1, setup, None, body=ifs[0], max_depth=0)
         bad = []
         for cell, paths in cells:
